@@ -174,7 +174,9 @@ def generate(rng, opts):
     schedules = [{"base": b, "stub_first": sf} for b in chosen for sf in (False, True)]
     rng.shuffle(schedules)
     return {
-        "world": {"placement": placement, "top": top, "modules": modules, "stubs_other_sp": placement == "stubs_pkg" and rng.random() < 0.5, "stubs_sp_first": rng.random() < 0.5},
+        "world": {"placement": placement, "top": top, "modules": modules, "stubs_other_sp": placement == "stubs_pkg" and rng.random() < 0.5, "stubs_sp_first": rng.random() < 0.5,
+                  # looking for a <pkg>-stubs package is an option of the caller, whether or not one exists
+                  "find_stubs_package": placement == "stubs_pkg" or rng.random() < 0.3},
         "schedules": schedules,
         "cfg": cfg,
     }
@@ -597,7 +599,7 @@ def execute(plan, ctx):
                         search_paths=sps,
                         allow_inspection=False,
                         try_relative_path=False,
-                        find_stubs_package=world["placement"] == "stubs_pkg",
+                        find_stubs_package=world.get("find_stubs_package", world["placement"] == "stubs_pkg"),
                     )
                     tree = norm(top)
                 except Exception as e:  # noqa: BLE001
